@@ -403,10 +403,16 @@ def b_dispatch(tier):
                            expected=exp, actual=k.mapper_method, functions=["_augment_expression_dataclass"]))
     # dispatch over handler subsets
     cand = ["map_base_node", "map_derived_node", "map_own_named_special", "map_http_server_node2"]
-    for fx in fixtures:
-        node = fx(trees.X)
-        for r in range(len(cand) + 1):
-            for subset in itertools.combinations(cand, r):
+    # the same node classes are dispatched by many mapper classes one after the other, in three orders (growing handler sets, shrinking handler
+    # sets, seeded shuffle): the handler chosen must not depend on what other mappers dispatched before (no state shared between mappers)
+    import random as _random
+    plan = [(fx, subset) for fx in fixtures for r in range(len(cand) + 1) for subset in itertools.combinations(cand, r)]
+    shuffled = list(plan)
+    _random.Random(4).shuffle(shuffled)
+    for order, seq in (("growing", plan), ("shrinking", list(reversed(plan))), ("shuffled", shuffled)):
+        for fx, subset in seq:
+            node = fx(trees.X)
+            if True:
                 for a, kw in (((), {}), ((1, "two"), {"k": 3})):
                     calls = []
                     ns = {}
@@ -425,15 +431,15 @@ def b_dispatch(tier):
                             if nm and nm not in chain:
                                 chain.append(nm)
                         want = next((h for h in chain if h in subset), None)
-                        b.case((fx.__name__, subset, entry, repr(a)), nontrivial=bool(subset),
-                               sample=dict(cls=fx.__name__, handlers=list(subset), entry=entry, want=want))
+                        b.case((fx.__name__, subset, entry, repr(a), order), nontrivial=bool(subset),
+                               sample=dict(cls=fx.__name__, handlers=list(subset), entry=entry, want=want, order=order))
                         if want is None:
                             ok = real[0] == "exc" and issubclass(real[1], UnsupportedExpressionError) and not calls
                         else:
                             ok = real == ("val", want) and len(calls) == 1 and calls[0][0] == want and calls[0][1] is node \
                                 and calls[0][2] == a and calls[0][3] == kw
                         if not ok:
-                            b.fail(Failure("dispatch", f"mode=dispatch cls={fx.__name__} handlers={subset} entry={entry} args={a}",
+                            b.fail(Failure("dispatch", f"mode=dispatch order={order} cls={fx.__name__} handlers={subset} entry={entry} args={a}",
                                            dict(kind="dispatch", cls=fx.__name__, handlers=list(subset), entry=entry, args=repr(a), kw=repr(kw)),
                                            expected=f"handler {want}", actual=f"{outcome.describe(real)} calls={[(c[0], c[2], c[3]) for c in calls]}",
                                            functions=["Mapper.__call__", "Mapper.rec_fallback"]))
